@@ -233,8 +233,10 @@ Proof.
   destruct (negb (t_sys tx) && negb (t_price tx =? 0)); [|apply exec_part_only_fee; exact BS].
   destruct (e_codegas env) as [cg|]; [|discriminate].
   destruct (get_balance s (t_payer tx)) as [old|]; [|intros _; apply nocharge_only_fee; apply same_block_refl].
-  destruct (fee_lt_min old _); [intro H; apply cost_invalid_only_fee; auto using same_block_refl|].
-  destruct (fee_lt_code old _ _); [intro H; apply cost_invalid_only_fee; auto using same_block_refl|].
+  destruct (safe_mul _ _) as [minGas ovf1].
+  destruct (fee_lt_min _ _ _); [intro H; apply cost_invalid_only_fee; auto using same_block_refl|].
+  destruct (safe_mul _ _) as [clGas ovf2].
+  destruct (fee_lt_code _ _ _); [intro H; apply cost_invalid_only_fee; auto using same_block_refl|].
   destruct (fee_lt_limit _ _); [intro H; apply cost_invalid_only_fee; auto using same_block_refl|].
   apply exec_part_only_fee; exact BS.
 Qed.
@@ -355,8 +357,10 @@ Proof.
   unfold handle_invoke. fold (is_charge tx). destruct (is_charge tx) eqn:Ec.
   - destruct (e_codegas env) as [cg|]; [|discriminate].
     destruct (get_balance _ _) as [old|]; [|discriminate].
-    destruct (fee_lt_min old _); [intro H; exfalso; eapply cost_invalid_not_success; eauto|].
-    destruct (fee_lt_code old _ _); [intro H; exfalso; eapply cost_invalid_not_success; eauto|].
+    destruct (safe_mul _ _) as [minGas ovf1].
+    destruct (fee_lt_min _ _ _); [intro H; exfalso; eapply cost_invalid_not_success; eauto|].
+    destruct (safe_mul _ _) as [clGas ovf2].
+    destruct (fee_lt_code _ _ _); [intro H; exfalso; eapply cost_invalid_not_success; eauto|].
     destruct (fee_lt_limit _ _); [intro H; exfalso; eapply cost_invalid_not_success; eauto|].
     intro H. rewrite <- Ec in H.
     destruct (exec_part_success _ _ _ _ _ _ _ BS IS H) as (o & Eo & Ok & Ei & SC).
@@ -419,7 +423,9 @@ Proof.
   intros BS IS. unfold handle_invoke.
   destruct (negb (t_sys tx) && negb (t_price tx =? 0)); [|apply exec_part_block_sorted; assumption].
   destruct (e_codegas env); [|exact BS]. destruct (get_balance s (t_payer tx)); [|exact BS].
-  destruct (fee_lt_min _ _); [apply cost_invalid_block_sorted; exact BS|].
+  destruct (safe_mul _ _) as [minGas ovf1].
+  destruct (fee_lt_min _ _ _); [apply cost_invalid_block_sorted; exact BS|].
+  destruct (safe_mul _ _) as [clGas ovf2].
   destruct (fee_lt_code _ _ _); [apply cost_invalid_block_sorted; exact BS|].
   destruct (fee_lt_limit _ _); [apply cost_invalid_block_sorted; exact BS|].
   apply exec_part_block_sorted; assumption.
@@ -530,9 +536,25 @@ Proof.
   - intros [k ->]. exists (625 * k). unfold two64. lia.
 Qed.
 
-Lemma rounds_agree price : fee_insuf_round price = fee_fail_round price /\ fee_ok_round price = fee_fail_round price /\
-  fee_min_gas price = fee_fail_round price.
-Proof. unfold fee_insuf_round, fee_ok_round, fee_fail_round, fee_min_gas. rewrite (u64mul_comm FEE_MIN_TRANSACTION_GAS). auto. Qed.
+Lemma rounds_agree price : fee_insuf_round price = fee_fail_round price /\ fee_ok_round price = fee_fail_round price.
+Proof. unfold fee_insuf_round, fee_ok_round, fee_fail_round. auto. Qed.
+
+(** ** common.SafeMul: the wrapped product and whether the exact product needs more than 64 bits *)
+Lemma u64mul_lt a b : u64mul a b < two64.
+Proof. unfold u64mul. apply N.mod_lt. discriminate. Qed.
+
+Lemma safe_mul_spec x y : x < two64 -> y < two64 -> safe_mul x y = (u64mul x y, two64 <=? x * y).
+Proof.
+  intros Hx Hy. unfold safe_mul, safemul_zero, safemul_zero_val, safemul_zero_ovf, safemul_val, safemul_ovf, u64div.
+  destruct (N.eqb_spec x 0) as [->|Hx0]; cbn [orb].
+  { rewrite N.mul_0_l. reflexivity. }
+  destruct (N.eqb_spec y 0) as [->|Hy0]; cbn [orb].
+  { rewrite N.mul_0_r. unfold u64mul. rewrite N.mul_0_r. reflexivity. }
+  f_equal. destruct (N.leb_spec two64 (x * y)) as [H|H].
+  - apply N.ltb_lt. apply N.div_lt_upper_bound; [exact Hx0|]. unfold max_u64, two64 in *. lia.
+  - apply N.ltb_ge. apply N.div_le_lower_bound; [exact Hx0|]. unfold max_u64, two64 in *. lia.
+Qed.
+
 
 (** * Panics *)
 
@@ -546,7 +568,9 @@ Lemma handle_invoke_panic env tx ip s :
 Proof.
   unfold handle_invoke. destruct (negb (t_sys tx) && negb (t_price tx =? 0)).
   - destruct (e_codegas env); [|discriminate]. destruct (get_balance s _); [|discriminate].
-    destruct (fee_lt_min _ _); [rewrite cost_invalid_req; discriminate|].
+    destruct (safe_mul _ _) as [minGas ovf1].
+    destruct (fee_lt_min _ _ _); [rewrite cost_invalid_req; discriminate|].
+    destruct (safe_mul _ _) as [clGas ovf2].
     destruct (fee_lt_code _ _ _); [rewrite cost_invalid_req; discriminate|].
     destruct (fee_lt_limit _ _); [rewrite cost_invalid_req; discriminate|].
     unfold exec_part. destruct (ip s _) as [o|]; [|discriminate]. destruct (o_internal o); [discriminate|].
@@ -596,27 +620,121 @@ Proof.
     rewrite u64mul_small by lia. lia.
 Qed.
 
+(** The pre-checks of a charged transaction, now that both products are overflow-checked: the
+    handler charges the whole balance, or GasLimit*GasPrice (exact, below codeLenGas*GasPrice), or it
+    runs the script knowing that MIN_TRANSACTION_GAS*GasPrice and codeLenGas*GasPrice are exact and
+    covered by the balance and that codeLenGas <= GasLimit. For ALL gas prices. *)
+Lemma handle_invoke_charged env tx ip s cg old :
+  is_charge tx = true -> e_codegas env = Some cg -> get_balance s (t_payer tx) = Some old -> t_price tx < two64 ->
+  let clg := code_len_gas (t_codelen tx) cg in
+  let avail := if fee_ava_gt (t_limit tx) (fee_max_ava old (t_price tx)) then fee_max_ava old (t_price tx) else t_limit tx in
+  handle_invoke env tx ip s = cost_invalid tx s old \/
+  (t_limit tx < clg /\ clg * t_price tx <= old /\ handle_invoke env tx ip s = cost_invalid tx s (t_limit tx * t_price tx)) \/
+  (FEE_MIN_TRANSACTION_GAS * t_price tx <= old /\ clg * t_price tx <= old /\ clg <= t_limit tx /\
+   handle_invoke env tx ip s = exec_part env tx ip s true avail clg old).
+Proof.
+  intros Hc Hcg Hold Hp. cbv zeta.
+  pose proof (get_balance_u64 _ _ _ Hold) as Ho.
+  unfold handle_invoke. fold (is_charge tx). rewrite Hc, Hcg, Hold.
+  unfold fee_min_a, fee_min_b. rewrite safe_mul_spec by (try exact Hp; reflexivity).
+  unfold fee_lt_min. destruct (N.leb_spec two64 (FEE_MIN_TRANSACTION_GAS * t_price tx)) as [|W1]; cbn [orb].
+  { left. reflexivity. }
+  rewrite (u64mul_small _ _ W1).
+  destruct (N.ltb_spec old (FEE_MIN_TRANSACTION_GAS * t_price tx)) as [|Hmin]; [left; reflexivity|].
+  set (clg := code_len_gas (t_codelen tx) cg).
+  assert (Hclg2 : clg < two64) by (unfold clg, code_len_gas; apply u64mul_lt).
+  unfold fee_code_a, fee_code_b. rewrite safe_mul_spec by assumption.
+  unfold fee_lt_code. destruct (N.leb_spec two64 (clg * t_price tx)) as [|W3]; cbn [orb].
+  { left. reflexivity. }
+  rewrite (u64mul_small _ _ W3).
+  destruct (N.ltb_spec old (clg * t_price tx)) as [|Hclg]; [left; reflexivity|].
+  unfold fee_lt_limit. destruct (N.ltb_spec (t_limit tx) clg) as [Hlt|Hcl].
+  - right. left. split; [exact Hlt|]. split; [exact Hclg|]. unfold fee_charge_limit.
+    assert (t_limit tx * t_price tx <= clg * t_price tx) by (apply N.mul_le_mono_r; lia).
+    rewrite u64mul_small by lia. reflexivity.
+  - right. right. auto.
+Qed.
+
+Lemma is_charge_price tx : is_charge tx = true -> t_price tx <> 0.
+Proof.
+  unfold is_charge. intro Hc. apply andb_true_iff in Hc. destruct Hc as [_ Hc].
+  destruct (N.eqb_spec (t_price tx) 0); [discriminate|assumption].
+Qed.
+
+(** with those facts nothing else can wrap: the gas handed to the engine is avail - codeLenGas with
+    codeLenGas <= avail <= GasLimit, and (for sc.Gas <= that gas) costGasLimit = avail - sc.Gas or the
+    floor, costGas = costGasLimit * GasPrice exactly, at most the balance; the rounding unit
+    GasPrice * MIN_TRANSACTION_GAS is exact too. *)
+Lemma exec_arith_exact price limit clg old left :
+  price <> 0 -> old < two64 -> limit < two64 ->
+  FEE_MIN_TRANSACTION_GAS * price <= old -> clg * price <= old -> clg <= limit ->
+  let avail := if fee_ava_gt limit (fee_max_ava old price) then fee_max_ava old price else limit in
+  clg <= avail /\ avail <= limit /\ fee_exec_gas avail clg = avail - clg /\
+  fee_fail_round price = price * FEE_MIN_TRANSACTION_GAS /\
+  (left <= fee_exec_gas avail clg ->
+   let cgl0 := fee_cost_limit avail left in
+   let cgl := if fee_cost_lt_min cgl0 then fee_cost_floor else cgl0 in
+   cgl0 = avail - left /\ fee_cost_gas cgl price = cgl * price /\ cgl * price <= old).
+Proof.
+  intros Hp Ho Hl Hmin Hclg Hcl. cbv zeta.
+  unfold fee_ava_gt, fee_max_ava, u64div.
+  assert (Hm : old / price * price <= old) by (rewrite N.mul_comm; apply N.mul_div_le; exact Hp).
+  assert (Hc : clg <= old / price) by (apply N.div_le_lower_bound; [exact Hp|rewrite N.mul_comm; exact Hclg]).
+  set (avail := if old / price <? limit then old / price else limit).
+  assert (Ha : avail <= old / price /\ avail <= limit /\ clg <= avail).
+  { subst avail. destruct (N.ltb_spec (old / price) limit); lia. }
+  destruct Ha as (Ha1 & Ha2 & Ha3).
+  split; [exact Ha3|]. split; [exact Ha2|].
+  unfold fee_exec_gas, fee_cost_limit. rewrite (u64sub_le avail clg) by lia. split; [reflexivity|].
+  split; [unfold fee_fail_round; apply u64mul_small; rewrite N.mul_comm; lia|].
+  intro Hleft. rewrite (u64sub_le avail left) by lia. split; [reflexivity|].
+  unfold fee_cost_lt_min, fee_cost_floor, fee_cost_gas.
+  assert (Hap : avail * price <= old) by nia.
+  destruct (N.ltb_spec (avail - left) FEE_MIN_TRANSACTION_GAS).
+  - rewrite u64mul_small by lia. split; [reflexivity|exact Hmin].
+  - assert ((avail - left) * price <= avail * price) by (apply N.mul_le_mono_r; lia).
+    rewrite u64mul_small by lia. split; [reflexivity|lia].
+Qed.
+
+Lemma cost_invalid_not_noprobe tx s g : r_status (cost_invalid tx s g) <> StNoProbe.
+Proof. unfold cost_invalid. destruct (ong_transfer _ _ _ _ _) as [f [[]|]]; discriminate. Qed.
+
+(** the gas handed to the engine never exceeds GasLimit (no underflow of
+    availableGasLimit - codeLenGasLimit), for every gas price *)
+Theorem engine_gas_within_limit env tx s g :
+  t_limit tx < two64 -> t_price tx < two64 ->
+  r_status (handle_invoke env tx (fun _ _ => None) s) = StNoProbe ->
+  r_req (handle_invoke env tx (fun _ _ => None) s) = Some g -> g <= t_limit tx.
+Proof.
+  intros Hl Hp. destruct (is_charge tx) eqn:Hc.
+  - destruct (e_codegas env) as [cg|] eqn:Hcg.
+    2:{ unfold handle_invoke. fold (is_charge tx). rewrite Hc, Hcg. discriminate. }
+    destruct (get_balance s (t_payer tx)) as [old|] eqn:Hold.
+    2:{ unfold handle_invoke. fold (is_charge tx). rewrite Hc, Hcg, Hold. discriminate. }
+    destruct (handle_invoke_charged env tx (fun _ _ => None) s cg old Hc Hcg Hold Hp) as [E|[(_ & _ & E)|(Hmin & Hclg & Hcl & E)]];
+      rewrite E; try solve [intro H; exfalso; eapply cost_invalid_not_noprobe; exact H].
+    unfold exec_part. cbv beta iota delta [r_status r_req]. intros _ Eg. injection Eg as <-.
+    destruct (exec_arith_exact (t_price tx) (t_limit tx) (code_len_gas (t_codelen tx) cg) old 0
+                (is_charge_price tx Hc) (get_balance_u64 _ _ _ Hold) Hl Hmin Hclg Hcl) as (A & B & C & _).
+    rewrite C. lia.
+  - unfold handle_invoke. fold (is_charge tx). rewrite Hc. unfold exec_part. cbv beta iota delta [r_status r_req].
+    intros _ Eg. injection Eg as <-. unfold fee_exec_gas. rewrite u64sub_le by lia. lia.
+Qed.
+
 Theorem req_le_balance env tx ip s cg old g :
-  is_charge tx = true -> e_codegas env = Some cg -> no_wrap3 cg tx -> t_limit tx < two64 ->
+  is_charge tx = true -> e_codegas env = Some cg -> t_limit tx < two64 -> t_price tx < two64 ->
   interp_gas_ok ip -> get_balance s (t_payer tx) = Some old ->
   r_status (handle_invoke env tx ip s) = StFail -> r_req (handle_invoke env tx ip s) = Some g ->
   g <= old \/
   (exists gas o new, ip s gas = Some o /\ o_ok o = true /\
      get_balance (mkState (o_cache o) (st_overlay s) (st_store s)) (t_payer tx) = Some new /\ g <= new).
 Proof.
-  intros Hc Hcg (W1 & W2 & W3) Hl GO Hold.
+  intros Hc Hcg Hl Hpr GO Hold.
   pose proof (get_balance_u64 _ _ _ Hold) as Ho.
-  assert (Hp : t_price tx <> 0).
-  { unfold is_charge in Hc. apply andb_true_iff in Hc. destruct Hc as [_ Hc]. destruct (N.eqb_spec (t_price tx) 0); [discriminate|assumption]. }
-  unfold handle_invoke. fold (is_charge tx). rewrite Hc, Hcg, Hold.
-  unfold fee_lt_min, fee_min_gas. rewrite (u64mul_small _ _ W1).
-  destruct (N.ltb_spec old (FEE_MIN_TRANSACTION_GAS * t_price tx)) as [|Hmin].
-  { rewrite cost_invalid_req. intros _ E; injection E as <-. left. unfold fee_charge_nobal_min. lia. }
-  unfold fee_lt_code. rewrite (u64mul_small _ _ W3).
-  destruct (N.ltb_spec old (code_len_gas (t_codelen tx) cg * t_price tx)) as [|Hclg].
-  { rewrite cost_invalid_req. intros _ E; injection E as <-. left. unfold fee_charge_nobal_code. lia. }
-  unfold fee_lt_limit. destruct (N.ltb_spec (t_limit tx) (code_len_gas (t_codelen tx) cg)) as [Hlt|Hcl].
-  { rewrite cost_invalid_req. intros _ E; injection E as <-. left. unfold fee_charge_limit. rewrite (u64mul_small _ _ W2).
+  pose proof (is_charge_price tx Hc) as Hp.
+  destruct (handle_invoke_charged env tx ip s cg old Hc Hcg Hold Hpr) as [E|[(Hlt & Hclg & E)|(Hmin & Hclg & Hcl & E)]]; rewrite E; clear E.
+  { rewrite cost_invalid_req. intros _ E; injection E as <-. left. lia. }
+  { rewrite cost_invalid_req. intros _ E; injection E as <-. left.
     assert (t_limit tx * t_price tx <= code_len_gas (t_codelen tx) cg * t_price tx) by (apply N.mul_le_mono_r; lia). lia. }
   set (clg := code_len_gas (t_codelen tx) cg) in *.
   set (avail := if fee_ava_gt (t_limit tx) (fee_max_ava old (t_price tx)) then fee_max_ava old (t_price tx) else t_limit tx).
@@ -633,7 +751,7 @@ Proof.
     destruct (tune_active (e_height env) (e_tune env)) eqn:Ea.
     - pose proof (tune_fee_capped _ _ costGas (fee_fail_round (t_price tx)) cap Ea). lia.
     - rewrite tune_fee_inactive by exact Ea. exact Hcost. }
-  destruct (rounds_agree (t_price tx)) as (R1 & R2 & _).
+  destruct (rounds_agree (t_price tx)) as (R1 & R2).
   destruct (o_internal o); [discriminate|]. destruct (o_ok o) eqn:Ok; cbv beta iota delta [negb].
   2:{ intros A B. left. apply (T _ _ (N.le_refl old) A B). }
   destruct (get_balance (mkState (o_cache o) (st_overlay s) (st_store s)) (t_payer tx)) as [new|] eqn:En; [|discriminate].
